@@ -30,6 +30,7 @@ Interesting module attributes:
 # SmartServerRequestHandler, whose dispatch_command method creates an instance
 # of a SmartServerRequest subclass.
 
+import re
 import threading
 from _thread import get_ident
 
@@ -110,6 +111,22 @@ def _pre_open_hook(transport):
 
 
 _install_hook()
+
+
+_UNSAFE_ENCODED_RE = re.compile("%(2f|5c|[01][0-9a-f]|7f)", re.IGNORECASE)
+
+
+def unsafe_client_path(path):
+    """Is this (decoded) client path one that must be refused outright?
+
+    An encoded path separator would be decoded into a real one by the
+    transports underneath, after the containment checks have run; raw or
+    encoded control characters (tab, CR, LF, ...) make the transports
+    underneath resolve what follows them as an absolute path.
+    """
+    if _UNSAFE_ENCODED_RE.search(path):
+        return True
+    return any(ord(c) < 0x20 or ord(c) == 0x7F for c in path)
 
 
 class SmartServerRequest:
@@ -248,10 +265,7 @@ class SmartServerRequest:
             the backing transport).
         """
         client_path = client_path.decode("utf-8")
-        lowered = client_path.lower()
-        if "%2f" in lowered or "%5c" in lowered:
-            # An encoded path separator would be decoded into a real one by
-            # the transports underneath, after the checks below have run.
+        if unsafe_client_path(client_path):
             raise transport_errors.PathNotChild(client_path, self._root_client_path)
         if self._root_client_path is None:
             # no translation necessary!
